@@ -931,8 +931,18 @@ CTX_LOOP: Dict[str, str] = {
     "for_in_for": "for i in range(2):\n    for j in range(2):\n{S2}mon.write(90)\n",
     "try": "try:\n{S1}except:\n    mon.write(70)\nmon.write(90)\n",
 }
+# more nesting for the thorough tier
+CTX_LOOP_THOROUGH: Dict[str, str] = {
+    "while_in_if": "if a > 0:\n    n = 0\n    while n < 2:\n        n += 1\n{S2}mon.write(90)\n",
+    "try_in_for": "for i in range(2):\n    try:\n{S2}    except:\n        mon.write(70)\nmon.write(90)\n",
+    "if_in_try": "try:\n    if a > 0:\n{S2}    else:\n        mon.write(80)\nexcept:\n    mon.write(70)\nmon.write(90)\n",
+    "for_in_while": "n = 0\nwhile n < 2:\n    n += 1\n    for i in range(2):\n{S2}mon.write(90)\n",
+    "elif_in_elif": "if a > 300:\n    mon.write(80)\nelif a > 0:\n    if b > 300:\n        mon.write(81)\n    elif b > 0:\n{S2}mon.write(90)\n",
+    "if_if_if": "if a > 0:\n    if b > 0:\n        if a > b:\n{S3}mon.write(90)\n",
+}
 # contexts whose innermost enclosing loop is a script-level for/while (break is legal; continue stays inside)
-CTX_INNER_LOOP = ("for", "while", "for_in_if", "if_in_for", "elif_in_for", "else_in_while", "for_in_for")
+CTX_INNER_LOOP = ("for", "while", "for_in_if", "if_in_for", "elif_in_for", "else_in_while", "for_in_for",
+                  "while_in_if", "try_in_for", "for_in_while")
 
 # name -> (globals declared before the main loop, statement block, observation after the context, flags)
 #   flags: "g:<names>" the block assigns these globals (a helper function needs `global`); "loop" needs an enclosing
@@ -1009,7 +1019,10 @@ def ctx_family(tier="quick", stmts=None, contexts=None, table=None, header=None)
         if stmts is not None and sname not in stmts:
             continue
         gl = flags[2:].split(",") if flags.startswith("g:") else []
-        for cname, tmpl in CTX_LOOP.items():
+        loop_ctx = dict(CTX_LOOP)
+        if tier == "thorough":
+            loop_ctx.update(CTX_LOOP_THOROUGH)
+        for cname, tmpl in loop_ctx.items():
             if contexts is not None and cname not in contexts:
                 continue
             if flags == "loop" and cname not in CTX_INNER_LOOP:
